@@ -1,27 +1,24 @@
 import Copia.Lemmas.ReconcileTable
 import Copia.Model.Bisync
+import Copia.Lemmas.Bisync11
 /-!
-# C02 — bisync never loses a file version (what is proved so far)
+# C02 — bisync never loses a file version
 
-`path_safe` is the decision-level core, for every path and every (a, b, base) triple. The lift to
-whole runs (`applyAll` over the plan with live trees) holds only under `NoNameClash` — without it
-the statement is false of model and code alike (D10: a conflict-copy written over a live path of the
-same name), which the check reports as a known finding. The whole-run behaviour is tied to the real
-binary by the history correspondence and checked by the version-survival oracle of `./check C02`.
+`path_safe` is the decision-level core, for every path and every (a, b, base) triple.
+`no_version_lost` is the whole-run statement for `Bisync.bisync` (scan both roots, reconcile against
+the trusted archive, run the whole plan on the live trees): every content present on either side
+before the run is present on BOTH sides after it, unless it was the recorded base at its path and the
+other side had changed or deleted that path. It is proved for every pair of trees and every archive
+under `NoNameClash` — no conflict-copy name the run writes is a live path or another entry's name.
+Without that hypothesis the statement is false of model and code alike (D10: a conflict-copy written
+over a live path of the same name; `clash_loses` below is the kernel-checked witness), which the check
+reports as a known finding. The model is tied to the real binary by the history correspondence and
+the version-survival oracle of `./check C02`.
 -/
 namespace Copia.C02
 open Copia.Reconcile Copia.Bisync Copia.C18
 
-/-- the version (if any) that executing `act` at a path overwrites or removes on side A / side B -/
-def discardsA {D} (act : Action) (a : Option (Fp D)) : Option (Fp D) :=
-  match act with
-  | .propagateBtoA | .deleteA => a
-  | _ => none
-
-def discardsB {D} (act : Action) (b : Option (Fp D)) : Option (Fp D) :=
-  match act with
-  | .propagateAtoB | .deleteB => b
-  | _ => none
+export Copia.PathSafe (discardsA discardsB)
 
 /-- C02 (decision level, every path, every triple): the only version a non-conflict action ever
 discards is one that **equals the base** while the other side **differs from it** (changed or
@@ -29,29 +26,93 @@ deleted) — never one side of a divergent edit, never the survivor of delete-vs
 created on one side only. Conflicts, convergence and no-ops discard nothing at the path. -/
 theorem path_safe {D} [DecidableEq D] (a b z : Option (Fp D)) :
     (∀ v, discardsA (reconcilePath a b z) a = some v → z = some v ∧ b ≠ some v) ∧
-    (∀ v, discardsB (reconcilePath a b z) b = some v → z = some v ∧ a ≠ some v) := by
-  cases a with
-  | none =>
-    cases b with
-    | none => cases z <;> simp [reconcilePath, discardsA, discardsB]
-    | some bv =>
-      cases z with
-      | none => simp [reconcilePath, discardsA, discardsB]
-      | some zv =>
-        by_cases h : bv = zv <;> simp [reconcilePath, discardsA, discardsB, Fp.same_eq_decide, h]
-  | some av =>
-    cases b with
-    | none =>
-      cases z with
-      | none => simp [reconcilePath, discardsA, discardsB]
-      | some zv =>
-        by_cases h : av = zv <;> simp [reconcilePath, discardsA, discardsB, Fp.same_eq_decide, h]
-    | some bv =>
-      cases z with
-      | none =>
-        by_cases h : av = bv <;> simp [reconcilePath, discardsA, discardsB, Fp.same_eq_decide, h]
-      | some zv =>
-        by_cases h1 : av = bv <;> by_cases h2 : av = zv <;> by_cases h3 : bv = zv <;>
-          simp_all [reconcilePath, discardsA, discardsB, Fp.same_eq_decide]
+    (∀ v, discardsB (reconcilePath a b z) b = some v → z = some v ∧ a ≠ some v) :=
+  Copia.PathSafe.path_safe a b z
+
+variable {P C : Type} [DecidableEq P] [DecidableEq C]
+
+/-- C02 (whole run, all trees, all archives, under NoNameClash): the run does not stop on an I/O
+error, and every content `c` that side A (resp. B) held at some path `p` before the run is held by
+BOTH sides at some path after it — unless `c` was exactly the recorded base at `p` and the other side
+no longer held `c` there (it had been changed or deleted on that side: the propagated case). -/
+theorem no_version_lost (le : P → P → Bool)
+    (trans : ∀ a b c, le a b → le b c → le a c) (total : ∀ a b, le a b || le b a)
+    (antisymm : ∀ a b, le a b → le b a → a = b) (ge : C → C → Bool) (cname : P → C → P) (s : State P C)
+    (nnc : NoNameClash ge cname s.A s.B (bisyncPlan le s)) :
+    (bisync le ge cname s).status ≠ .ioError ∧
+    (∀ p c, get s.A p = some c →
+      (∃ q, get (bisync le ge cname s).state.A q = some c ∧ get (bisync le ge cname s).state.B q = some c) ∨
+      (baseOf s p = some (mkFp c) ∧ get s.B p ≠ some c)) ∧
+    (∀ p c, get s.B p = some c →
+      (∃ q, get (bisync le ge cname s).state.A q = some c ∧ get (bisync le ge cname s).state.B q = some c) ∨
+      (baseOf s p = some (mkFp c) ∧ get s.A p ≠ some c)) := by
+  obtain ⟨hact, _, _, hrest⟩ := plan_facts le trans total antisymm s
+  obtain ⟨l, n, hrun, inv, _⟩ := bisync_run le trans total antisymm ge cname s nnc
+  rw [bisync_of_run le ge cname s l n hrun]
+  refine ⟨by simp only []; split <;> simp, ?_, ?_⟩
+  · intro p c h
+    exact runInv_no_loss_A ge cname s.A s.B (baseOf s) _ l hact hrest nnc inv p c h
+  · intro p c h
+    exact runInv_no_loss_B ge cname s.A s.B (baseOf s) _ l hact hrest nnc inv p c h
+
+/-- a non-trivial run meeting the hypotheses of `no_version_lost`: a divergent edit (a conflict copy is
+written), a deletion against a trusted archive, an unchanged file -/
+def s0 : State Nat Nat := { A := [(1, 10), (2, 20), (3, 30)], B := [(1, 11), (3, 30)],
+                               arch := some [(1, mkFp 12), (2, mkFp 20), (3, mkFp 30)] }
+theorem plan_s0 (p : Nat) (act : Action) (hm : (p, act) ∈ bisyncPlan (fun a b => decide (a ≤ b)) s0) :
+    (p = 1 ∧ act = .conflict .bothChanged) ∨ (p = 2 ∧ act = .deleteA) := by
+  obtain ⟨hk, he, hne⟩ := (Copia.C18.mem_reconcile _ _ _ _ _ p act).mp hm
+  have hp : p = 1 ∨ p = 2 ∨ p = 3 := by
+    simp [s0, scan] at hk; omega
+  rcases hp with rfl | rfl | rfl
+  · left; exact ⟨rfl, by rw [he]; decide⟩
+  · right; exact ⟨rfl, by rw [he]; decide⟩
+  · exfalso; apply hne; rw [he]; decide
+/-- the hypotheses of `no_version_lost` are satisfiable (non-vacuity) -/
+theorem s0_noNameClash : NoNameClash (fun a b => decide (a ≥ b)) (fun p c => 1000 + 100 * p + c) s0.A s0.B
+      (bisyncPlan (fun a b => decide (a ≤ b)) s0) := by
+  refine ⟨?_, ?_⟩
+  · intro p act ln hm hc
+    rcases plan_s0 p act hm with ⟨rfl, rfl⟩ | ⟨rfl, rfl⟩
+    · have : ln = 1110 := by
+        have h2 : ccName (fun a b => decide (a ≥ b)) (fun p c => 1000 + 100 * p + c) 1 (.conflict .bothChanged)
+            (Copia.Bisync.get s0.A 1) (Copia.Bisync.get s0.B 1) = some 1110 := by decide
+        rw [h2] at hc; cases hc; rfl
+      subst this; decide
+    · have h2 : ccName (fun a b => decide (a ≥ b)) (fun p c => 1000 + 100 * p + c) 2 .deleteA
+            (Copia.Bisync.get s0.A 2) (Copia.Bisync.get s0.B 2) = none := by decide
+      rw [h2] at hc; cases hc
+  · intro p act p' act' ln hm hm' hc hc'
+    rcases plan_s0 p act hm with ⟨rfl, rfl⟩ | ⟨rfl, rfl⟩ <;> rcases plan_s0 p' act' hm' with ⟨rfl, rfl⟩ | ⟨rfl, rfl⟩
+    · rfl
+    · have h2 : ccName (fun a b => decide (a ≥ b)) (fun p c => 1000 + 100 * p + c) 2 .deleteA
+            (Copia.Bisync.get s0.A 2) (Copia.Bisync.get s0.B 2) = none := by decide
+      rw [h2] at hc'; cases hc'
+    · have h2 : ccName (fun a b => decide (a ≥ b)) (fun p c => 1000 + 100 * p + c) 2 .deleteA
+            (Copia.Bisync.get s0.A 2) (Copia.Bisync.get s0.B 2) = none := by decide
+      rw [h2] at hc; cases hc
+    · rfl
+
+/-- D10 history: B holds a file whose name is the conflict-copy name this run will write -/
+def s1 : State Nat Nat := { A := [(1, 10)], B := [(1, 11), (1110, 99)], arch := none }
+theorem plan_s1 : bisyncPlan (fun a b => decide (a ≤ b)) s1 = [(1, .conflict .bothChanged), (1110, .propagateBtoA)] := by
+  have hs : ([1, 1, 1110] : List Nat).mergeSort (fun a b => decide (a ≤ b)) = [1, 1, 1110] :=
+    List.mergeSort_of_pairwise (by decide)
+  unfold bisyncPlan reconcile unionKeys
+  have : (List.map (fun x => x.1) (scan s1.A) ++ List.map (fun x => x.1) (scan s1.B)) = [1, 1, 1110] := by decide
+  rw [this, hs]
+  decide
+/-- D10, kernel-checked: WITHOUT NoNameClash the whole-run statement is false of the model. B's file
+`1110` (content 99) is overwritten by the conflict copy of A's losing version; 99 is on neither side
+afterwards. The same history replayed on the real binary loses the file (known finding). -/
+theorem clash_loses :
+    let o := bisync (fun a b => decide (a ≤ b)) (fun a b => decide (a ≥ b)) (fun p c => 1000 + 100 * p + c) s1
+    Copia.Bisync.get s1.B 1110 = some 99 ∧ o.status = .conflicts ∧
+    o.state.A = [(1, 11), (1110, 10)] ∧ o.state.B = [(1, 11), (1110, 10)] := by
+  unfold bisync
+  have := plan_s1
+  unfold bisyncPlan at this
+  simp only [this]
+  decide
 
 end Copia.C02
